@@ -1,5 +1,8 @@
 pub mod common;
 pub mod c01;
+pub mod c02;
+pub mod c03;
+pub mod c11;
 
 use crate::runner::{replay_prop, run_prop, Ctx};
 
@@ -15,6 +18,9 @@ macro_rules! go {
 pub fn dispatch(id: &str, ctx: &Ctx, replay: Option<&str>) -> i32 {
   match id {
     "C01" => go!(c01::C01, ctx, replay),
+    "C02" => go!(c02::C02, ctx, replay),
+    "C03" => go!(c03::C03, ctx, replay),
+    "C11" => go!(c11::C11, ctx, replay),
     _ => {
       eprintln!("unknown property {id}");
       2
